@@ -1,4 +1,4 @@
-from checks import mibcompile, oidindex, atomicwrite, searcher, readerlookup, history, oidtree, decls, refs
+from checks import mibcompile, oidindex, atomicwrite, searcher, readerlookup, history, oidtree, decls, refs, types
 
 RULE_MC = ('scenario = terminal state of MibCompile.tla exported by TLC (request x lazily chosen answers of every '
            'component x options); non-trivial = at least one component answered with a failure / fresh / borrow; '
@@ -59,3 +59,6 @@ REGISTRY['C03'] = {'run': decls.run, 'replay': decls.replay, 'finish': {
 
 REGISTRY['C06'] = {'run': refs.run, 'replay': refs.replay, 'finish': {
     'rule': 'scenario = state of Refs.tla: table aspect (columns x INDEX lists x IMPLIED x text order x augmenting row), list aspect (OBJECTS / NOTIFICATIONS / VARIABLES lists of length 0-3 mixing local and imported objects), compliance aspect (MODULE parts x MANDATORY-GROUPS x GROUP/OBJECT clause orders); all are replayed; distinct by scenario', 'exhaustive': True}}
+
+REGISTRY['C05'] = {'run': types.run, 'replay': types.replay, 'finish': {
+    'rule': 'scenario = state of Types.tla: chain aspect (base x 0-3 derived types x assign/TC x refinement x imported x declaration order x DEFVAL), range/size aspect (1-3 alternatives over boundary values in decimal/hex/binary), named aspect (enumerations/BITS permutations, inline or through a TC), defval aspect (notation x base class x chain depth); distinct by scenario', 'exhaustive': False}}
